@@ -21,5 +21,17 @@ def run(ctx):
     from . import history
     history.check_cache_seed(rep, ctx.repo)
     history.run_cache_scenarios(rep, ctx.repo, 'Derivative', None)
+    # the rule object is mutable (n, order, method setters write through to it): the rule used after a setter is the one of
+    # a fresh object with the final configuration
+    rep.rule('R-SETTER', 'after assigning n / order / method on an object that was already used, the difference quotient, the rule and '
+             'the Richardson parameters are those of a freshly constructed object with the final configuration (abstract run in '
+             'the function-value domain, shared with C09)', 10)
+    fd = ctx.repo.module('finite_difference')
+    from ..srcmodel import AnalysisError
+    for sc in history.setter_scenarios('Derivative', None, ctx.tier):
+        try:
+            history.run_scenario(rep, ctx.repo, sc, 'R-SETTER', 'finite_difference.LogRule', fd.relpath)
+        except AnalysisError as exc:
+            rep.undecided('R-SETTER', 'finite_difference.LogRule', exc, sc.name)
     rep.notes['trusted_base'] = ['python ast', 'ndverif abstract interpreter and exact algebra',
                                  'generalised Vandermonde non-singularity', 'pinv(A) == inv(A) for invertible A']
